@@ -650,7 +650,6 @@ func sameSliceAfter(sorted, later ssa.Value, at *ssa.Call) bool {
 	return true
 }
 
-
 // spilledParam: v is a parameter, or the local copy go/ssa makes of a struct parameter whose fields are addressed.
 func spilledParam(v ssa.Value) ssa.Value {
 	if al, ok := v.(*ssa.Alloc); ok {
@@ -662,7 +661,6 @@ func spilledParam(v ssa.Value) ssa.Value {
 	}
 	return v
 }
-
 
 // freeVarBinding: for a (possibly nested) closure's free variable, the variable of the enclosing function it is bound to.
 func freeVarBinding(v ssa.Value) ssa.Value {
